@@ -1239,7 +1239,7 @@ namespace jsonschema {
         {
             std::regex re(sv.data(), sv.size(), std::regex::ECMAScript);
         }
-        JSONCONS_CATCH(...) 
+        JSONCONS_CATCH(const std::regex_error&) 
         {
             std::string message{"'"};
             message.append(sv.data(), sv.size());
